@@ -1,1 +1,291 @@
-/-! # C10 — property theorems (stub) -/
+import Okane.Lemmas.Query
+/-!
+# C10 — converted reports convert every amount or fail
+
+Statements about `Okane.Query.balance` (model of `Ledger::balance`) on top of the price model, for every price
+repository, every heap/hash/sort parameter in `env`, every ledger, target, date and range.
+`rateOf cfg repo T D c` is the unit rate `convert_single` uses (1 for `T` itself, the rate tabled by
+`compute_price_table` otherwise, `none` if there is none); which chain that rate comes from is C09.
+-/
+namespace Okane.Query
+open Okane.Price
+variable {α κ : Type} [DecidableEq α] [DecidableEq κ]
+
+/-! ## single amounts -/
+
+/-- amounts already in the target commodity are left untouched (and their unit rate is 1). -/
+theorem C10_untouched (cfg : Cfg κ) (repo : Builder κ) (v : Rat) (T : κ) (D : Date) :
+    convertSingle cfg repo ⟨v, T⟩ T D = .ok ⟨v, T⟩ ∧ rateOf cfg repo T D T = some 1 := by
+  simp [convertSingle, rateOf]
+
+/-- conversion scales linearly with the amount converted. -/
+theorem C10_linear (cfg : Cfg κ) (repo : Builder κ) (v k : Rat) (c T : κ) (D : Date) (w : SingleAmount κ)
+    (h : convertSingle cfg repo ⟨v, c⟩ T D = .ok w) :
+    convertSingle cfg repo ⟨k * v, c⟩ T D = .ok ⟨k * w.value, w.commodity⟩ := by
+  obtain ⟨r, hr, hw⟩ := convertSingle_ok h
+  subst hw
+  rw [convertSingle_of_rate hr (k * v), Rat.mul_assoc]
+
+/-- whether a conversion fails does not depend on the amount. -/
+theorem C10_fail_value_independent (cfg : Cfg κ) (repo : Builder κ) (v v' : Rat) (c T : κ) (D : Date)
+    (h : ∀ w, convertSingle cfg repo ⟨v, c⟩ T D ≠ .ok w) : ∀ w, convertSingle cfg repo ⟨v', c⟩ T D ≠ .ok w := by
+  intro w hw
+  obtain ⟨r, hr, _⟩ := convertSingle_ok hw
+  exact h _ (convertSingle_of_rate hr v)
+
+/-! ## multi-commodity amounts -/
+
+/-- `convert_amount` answers only if every entry has a rate; the answer holds nothing but the target commodity,
+with value Σ value × rate: nothing dropped, nothing counted twice, nothing left unconverted. -/
+theorem C10_amount_value (cfg : Cfg κ) (repo : Builder κ) (leK : κ → κ → Bool) (a res : Amount κ) (T : κ) (D : Date)
+    (h : convertAmount cfg repo leK a T D = .ok res) :
+    (∀ k, k ≠ T → AMap.get? res k = none) ∧
+    Amount.getPart res T = convValue (rateOf cfg repo T D) a ∧
+    (∀ cv ∈ a, (rateOf cfg repo T D cv.1).isSome) := by
+  obtain ⟨h1, h2, h3⟩ := convertAmount_ok h
+  exact ⟨fun k hk => getPart_single_ne T res h1 k hk, h3, h2⟩
+
+/-- … it does answer when every entry has a rate. -/
+theorem C10_amount_total (cfg : Cfg κ) (repo : Builder κ) (leK : κ → κ → Bool) (a : Amount κ) (T : κ) (D : Date)
+    (h : ∀ cv ∈ a, (rateOf cfg repo T D cv.1).isSome) : ∃ res, convertAmount cfg repo leK a T D = .ok res :=
+  convertLoop_total cfg repo T D _ [] (fun cv hcv => h cv ((mem_isortBy _ _ _).1 hcv))
+
+/-- a missing rate makes `convert_amount` fail (never a partial answer). -/
+theorem C10_fail_amount (cfg : Cfg κ) (repo : Builder κ) (leK : κ → κ → Bool) (a : Amount κ) (T : κ) (D : Date)
+    (cv : κ × Rat) (hcv : cv ∈ a) (hnone : rateOf cfg repo T D cv.1 = none) :
+    ∀ res, convertAmount cfg repo leK a T D ≠ .ok res := by
+  intro res h
+  have := (convertAmount_ok h).2.1 cv hcv
+  rw [hnone] at this; cases this
+
+/-- the converted value is linear in the amount. -/
+theorem C10_amount_linear (rate : κ → Option Rat) (a : Amount κ) (k : Rat) :
+    convValue rate (Amount.mulScalar a k) = convValue rate a * k := by
+  induction a with
+  | nil => simp [Amount.mulScalar, AMap.mapVals, convValue, Rat.zero_mul]
+  | cons cv a ih =>
+    obtain ⟨c, v⟩ := cv
+    simp only [Amount.mulScalar, AMap.mapVals, List.map_cons, convValue] at ih ⊢
+    rw [ih]
+    grind
+
+/-! ## the report -/
+
+/-- without a conversion the query is the unconverted report of `Model/Range.lean` (C04's subject). -/
+theorem C10_no_conversion_unchanged (prec : κ → Option Nat) (env : Env α κ) (txns : List (OutTxn α κ))
+    (raw : Balance α κ) (range : DateRange) :
+    balance prec env txns raw ⟨none, range⟩ = .ok (balanceNoConv prec txns raw range) := by
+  have hplain : ∀ (l : List (Date × OutPosting α κ)) (bal : Balance α κ),
+      recomputeLoop env ⟨none, range⟩ l bal =
+        .ok (l.foldl (fun b dp => if range.contains dp.1 then (Balance.addAmount b dp.2.account dp.2.amount).1 else b) bal) := by
+    intro l
+    induction l with
+    | nil => intro bal; rfl
+    | cons dp l ih =>
+      intro bal
+      obtain ⟨d, p⟩ := dp
+      simp only [recomputeLoop, List.foldl_cons]
+      by_cases hc : range.contains d = true
+      · simp [hc, ih]
+      · have hc' : range.contains d = false := by simpa using hc
+        simp [hc', ih]
+  unfold balance baseBalance requireRecompute balanceNoConv rangeBalanceRaw
+  by_cases hb : range.isBypass = true
+  · simp [hb, isHistorical]
+  · have hb' : range.isBypass = false := by simpa using hb
+    simp [hb', hplain, isUpToDate]
+
+/-- the balance an up-to-date conversion starts from is the raw balance, or the unrounded, unconverted sum of
+the postings in range. -/
+theorem baseBalance_upToDate (prec : κ → Option Nat) (env : Env α κ) (txns : List (OutTxn α κ)) (raw : Balance α κ)
+    (range : DateRange) (now : Date) (T : κ) :
+    baseBalance prec env txns raw ⟨some ⟨.upToDate now, T⟩, range⟩ =
+      .ok (if range.isBypass then raw else rangeBalanceRaw txns range) := by
+  have hplain : ∀ (l : List (Date × OutPosting α κ)) (bal : Balance α κ),
+      recomputeLoop env ⟨some ⟨.upToDate now, T⟩, range⟩ l bal =
+        .ok (l.foldl (fun b dp => if range.contains dp.1 then (Balance.addAmount b dp.2.account dp.2.amount).1 else b) bal) := by
+    intro l
+    induction l with
+    | nil => intro bal; rfl
+    | cons dp l ih =>
+      intro bal
+      obtain ⟨d, p⟩ := dp
+      simp only [recomputeLoop, List.foldl_cons]
+      by_cases hc : range.contains d = true
+      · simp [hc, ih]
+      · have hc' : range.contains d = false := by simpa using hc
+        simp [hc', ih]
+  unfold baseBalance requireRecompute rangeBalanceRaw
+  by_cases hb : range.isBypass = true
+  · simp [hb, isHistorical]
+  · have hb' : range.isBypass = false := by simpa using hb
+    simp [hb', hplain, isUpToDate]
+
+/-- a historical conversion always recomputes, converting posting by posting, and rounds afterwards. -/
+theorem baseBalance_historical (prec : κ → Option Nat) (env : Env α κ) (txns : List (OutTxn α κ)) (raw : Balance α κ)
+    (range : DateRange) (T : κ) :
+    baseBalance prec env txns raw ⟨some ⟨.historical, T⟩, range⟩ =
+      match recomputeLoop env ⟨some ⟨.historical, T⟩, range⟩ (allPostings txns) [] with
+      | .ok bal => .ok (Balance.round prec bal)
+      | o => o := by
+  unfold baseBalance requireRecompute
+  cases range.isBypass <;> simp [isHistorical, isUpToDate] <;>
+    (generalize recomputeLoop env _ (allPostings txns) [] = o; cases o <;> rfl)
+
+/-- **Up-to-date report.**  If the query answers, then for every account the answer holds nothing but the
+target commodity, and in it exactly `round_T (Σ over the account's holdings of holding × rate at now)`, where the
+holdings are the raw balance (no range) or the unrounded sum of the postings in range.  (`utdValue` sums over
+the balance entries of that account; `C10_uptodate_wf` rewrites it with unique account keys.) -/
+theorem C10_uptodate (prec : κ → Option Nat) (env : Env α κ) (txns : List (OutTxn α κ)) (raw B : Balance α κ)
+    (range : DateRange) (now : Date) (T : κ)
+    (h : balance prec env txns raw ⟨some ⟨.upToDate now, T⟩, range⟩ = .ok B) (a : α) :
+    (∀ k, k ≠ T → AMap.get? (Balance.get B a) k = none) ∧
+    Amount.getPart (Balance.get B a) T =
+      roundT prec T (utdValue (rateOf env.cfg env.repo T now) a (if range.isBypass then raw else rangeBalanceRaw txns range)) := by
+  unfold balance at h
+  rw [baseBalance_upToDate] at h
+  simp only at h
+  generalize hbase : (if range.isBypass then raw else rangeBalanceRaw txns range) = base at h ⊢
+  cases hl : upToDateLoop env T now (isortBy (fun a b => env.leA a.1 b.1) base) [] with
+  | ok conv =>
+    simp only [hl, Outcome.ok.injEq] at h
+    subst h
+    obtain ⟨h1, h2, _⟩ := upToDateLoop_ok env T now _ [] conv (fun e he => by simp at he) hl
+    obtain ⟨hs, hv⟩ := round_balance_get prec T conv h1 a
+    refine ⟨fun k hk => getPart_single_ne T _ hs k hk, ?_⟩
+    rw [hv, h2 a, utdValue_isortBy]
+    simp [Balance.get, Amount.getPart, Rat.zero_add]
+  | err e => simp [hl] at h
+  | panic s => simp [hl] at h
+  | fuelOut => simp [hl] at h
+
+/-- the same with unique account keys in the starting balance: Σ over the holdings of the account. -/
+theorem C10_uptodate_wf (prec : κ → Option Nat) (env : Env α κ) (txns : List (OutTxn α κ)) (raw B : Balance α κ)
+    (range : DateRange) (now : Date) (T : κ)
+    (h : balance prec env txns raw ⟨some ⟨.upToDate now, T⟩, range⟩ = .ok B)
+    (hwf : AMap.WF (if range.isBypass then raw else rangeBalanceRaw txns range)) (a : α) :
+    Amount.getPart (Balance.get B a) T =
+      roundT prec T (convValue (rateOf env.cfg env.repo T now)
+        (Balance.get (if range.isBypass then raw else rangeBalanceRaw txns range) a)) := by
+  rw [(C10_uptodate prec env txns raw B range now T h a).2, utdValue_of_WF _ _ _ hwf]
+
+/-- **Historical report.**  If the query answers, every account holds nothing but the target commodity, and in it
+exactly `round_T (Σ over the account's postings dated in the range, each converted at its own transaction date)`. -/
+theorem C10_historical (prec : κ → Option Nat) (env : Env α κ) (txns : List (OutTxn α κ)) (raw B : Balance α κ)
+    (range : DateRange) (T : κ)
+    (h : balance prec env txns raw ⟨some ⟨.historical, T⟩, range⟩ = .ok B) (a : α) :
+    (∀ k, k ≠ T → AMap.get? (Balance.get B a) k = none) ∧
+    Amount.getPart (Balance.get B a) T =
+      roundT prec T (histValue (rateOf env.cfg env.repo T) range a (allPostings txns)) := by
+  unfold balance at h
+  rw [baseBalance_historical] at h
+  cases hl : recomputeLoop env ⟨some ⟨.historical, T⟩, range⟩ (allPostings txns) [] with
+  | ok bal =>
+    simp only [hl, Outcome.ok.injEq] at h
+    subst h
+    obtain ⟨h1, h2, _⟩ := recomputeLoop_hist env _ T rfl _ [] bal (fun e he => by simp at he) hl
+    obtain ⟨hs, hv⟩ := round_balance_get prec T bal h1 a
+    refine ⟨fun k hk => getPart_single_ne T _ hs k hk, ?_⟩
+    rw [hv, h2 a]
+    simp [Balance.get, Amount.getPart, Rat.zero_add]
+  | err e => simp [hl] at h
+  | panic s => simp [hl] at h
+  | fuelOut => simp [hl] at h
+
+/-- **Missing rate, historical.**  If some posting dated in the range holds an entry (even a zero one) whose
+commodity has no rate into `T` at the transaction date, the query does not answer. -/
+theorem C10_fail (prec : κ → Option Nat) (env : Env α κ) (txns : List (OutTxn α κ)) (raw : Balance α κ)
+    (range : DateRange) (T : κ) (dp : Date × OutPosting α κ) (hdp : dp ∈ allPostings txns)
+    (hin : range.contains dp.1 = true) (cv : κ × Rat) (hcv : cv ∈ dp.2.amount)
+    (hnone : rateOf env.cfg env.repo T dp.1 cv.1 = none) :
+    ∀ B, balance prec env txns raw ⟨some ⟨.historical, T⟩, range⟩ ≠ .ok B := by
+  intro B h
+  unfold balance at h
+  rw [baseBalance_historical] at h
+  cases hl : recomputeLoop env ⟨some ⟨.historical, T⟩, range⟩ (allPostings txns) [] with
+  | ok bal =>
+    obtain ⟨_, _, h3⟩ := recomputeLoop_hist env _ T rfl _ [] bal (fun e he => by simp at he) hl
+    have := h3 dp hdp hin cv hcv
+    rw [hnone] at this; cases this
+  | err e => simp [hl] at h
+  | panic s => simp [hl] at h
+  | fuelOut => simp [hl] at h
+
+/-- **Missing rate, up to date.**  If some account of the starting balance holds an entry whose commodity has no
+rate into `T` at `now`, the query does not answer. -/
+theorem C10_fail_uptodate (prec : κ → Option Nat) (env : Env α κ) (txns : List (OutTxn α κ)) (raw : Balance α κ)
+    (range : DateRange) (now : Date) (T : κ) (e : α × Amount κ)
+    (he : e ∈ (if range.isBypass then raw else rangeBalanceRaw txns range)) (cv : κ × Rat) (hcv : cv ∈ e.2)
+    (hnone : rateOf env.cfg env.repo T now cv.1 = none) :
+    ∀ B, balance prec env txns raw ⟨some ⟨.upToDate now, T⟩, range⟩ ≠ .ok B := by
+  intro B h
+  unfold balance at h
+  rw [baseBalance_upToDate] at h
+  simp only at h
+  generalize hbase : (if range.isBypass then raw else rangeBalanceRaw txns range) = base at h he
+  cases hl : upToDateLoop env T now (isortBy (fun a b => env.leA a.1 b.1) base) [] with
+  | ok conv =>
+    obtain ⟨_, _, h3⟩ := upToDateLoop_ok env T now _ [] conv (fun e he => by simp at he) hl
+    have := h3 e ((mem_isortBy _ _ _).2 he) cv hcv
+    rw [hnone] at this; cases this
+  | err e => simp [hl] at h
+  | panic s => simp [hl] at h
+  | fuelOut => simp [hl] at h
+
+/-- **Rounding only to T's precision.**  With a conversion into `T`, the whole outcome of the query is the same
+for any two precision tables that agree on `T`: no other commodity's precision is ever applied (fix F20 removed
+the rounding of the unconverted range balance). -/
+theorem C10_round_only_T (prec prec' : κ → Option Nat) (env : Env α κ) (txns : List (OutTxn α κ)) (raw : Balance α κ)
+    (range : DateRange) (s : Strategy) (T : κ) (hT : prec T = prec' T) :
+    balance prec env txns raw ⟨some ⟨s, T⟩, range⟩ = balance prec' env txns raw ⟨some ⟨s, T⟩, range⟩ := by
+  cases s with
+  | upToDate now =>
+    unfold balance
+    rw [baseBalance_upToDate, baseBalance_upToDate]
+    simp only
+    generalize (if range.isBypass then raw else rangeBalanceRaw txns range) = base
+    cases hl : upToDateLoop env T now (isortBy (fun a b => env.leA a.1 b.1) base) [] with
+    | ok conv =>
+      obtain ⟨h1, _, _⟩ := upToDateLoop_ok env T now _ [] conv (fun e he => by simp at he) hl
+      simp only [round_balance_congr prec prec' T hT conv h1]
+    | err e => rfl
+    | panic s => rfl
+    | fuelOut => rfl
+  | historical =>
+    unfold balance
+    rw [baseBalance_historical, baseBalance_historical]
+    cases hl : recomputeLoop env ⟨some ⟨.historical, T⟩, range⟩ (allPostings txns) [] with
+    | ok bal =>
+      obtain ⟨h1, _, _⟩ := recomputeLoop_hist env _ T rfl _ [] bal (fun e he => by simp at he) hl
+      simp only [round_balance_congr prec prec' T hT bal h1]
+    | err e => rfl
+    | panic s => rfl
+    | fuelOut => rfl
+
+/-! ## non-vacuity (commodities and accounts are numbers; 0 = target) -/
+section Examples
+private def day (n : Nat) : Date := ⟨2024, 1, n⟩
+/-- price db: 1 c1 = 5 c0 on day 1, 1 c1 = 2.5 c0 on day 10 -/
+private def repo : Builder Nat :=
+  match buildFrom [] [⟨day 1, ⟨1, 1⟩, ⟨5, 0⟩⟩, ⟨day 10, ⟨1, 1⟩, ⟨5/2, 0⟩⟩] with
+  | .ok b => build b
+  | _ => []
+private def env : Env Nat Nat := ⟨⟨64, fun _ _ => 0, fun _ l => l⟩, repo, fun a b => decide (a ≤ b), fun a b => decide (a ≤ b)⟩
+/-- account 7 receives 0.5 c1 on day 5 and 1 c1 + 3 c2 on day 15 -/
+private def txns : List (OutTxn Nat Nat) :=
+  [⟨day 5, [⟨7, [(1, 1/2)], none⟩]⟩, ⟨day 15, [⟨7, [(1, 1), (2, 3)], none⟩]⟩]
+private def prec0 : Nat → Option Nat := fun c => if c = 0 then some 0 else none
+
+-- historical, range ending before the second transaction: 0.5 × 5 = 2.5 → 2 (half-even at T's precision 0)
+example : balance prec0 env txns [] ⟨some ⟨.historical, 0⟩, ⟨none, some (day 15)⟩⟩ = .ok [(7, [(0, 2)])] := by decide +kernel
+-- up to date on day 20 for the same range: 0.5 × 2.5 = 1.25 → 1
+example : balance prec0 env txns [] ⟨some ⟨.upToDate (day 20), 0⟩, ⟨none, some (day 15)⟩⟩ = .ok [(7, [(0, 1)])] := by decide +kernel
+-- the whole ledger needs a rate for c2: there is none, so the query fails instead of leaving 3 c2 unconverted
+example : balance prec0 env txns [] ⟨some ⟨.historical, 0⟩, {}⟩ = .err (.conversionFailure (.rateNotFound ⟨3, 2⟩ 0 (day 15))) := by
+  decide +kernel
+example : rateOf env.cfg env.repo 0 (day 15) 2 = none := by decide +kernel
+example : rateOf env.cfg env.repo 0 (day 5) 1 = some 5 := by decide +kernel
+example : convValue (rateOf env.cfg env.repo 0 (day 5)) [(1, 1/2)] = 5/2 := by decide +kernel
+end Examples
+
+end Okane.Query
